@@ -428,6 +428,20 @@ def run_case(case):
             except BaseException as e:  # noqa
                 box['exit_error'] = 'closing a stream after the server was left: ' + repr(e)
             box['late_close'] = max(box.get('late_close', 0.0), detsched.now() - t0c)
+        if has_leave and 'exit_error' not in box:
+            # the same object once more: whatever the feeder of the left-open stream did when the server was left,
+            # the server comes back with every slot free and serves
+            try:
+                srv.__enter__()
+                box['reenter_backlog'] = srv.backlog
+                do_call(case['nreq'] + 50, 1, False, FOREVER, False)
+                time.sleep(1000)
+                box['idle_backlog'] = srv.backlog
+                srv.__exit__(None, None, None)
+            except detsched.Abort:
+                raise
+            except BaseException as e:  # noqa
+                box['exit_error'] = 're-entering after a stream was left open: ' + repr(e)
         box['leaked'] = [ts_.name for ts_ in detsched.SCHED.order if not ts_.done and ts_.tid not in base_threads]
         return box
 
